@@ -10,19 +10,7 @@ EXTENDS World, TLC, Json, IOUtils, FiniteSets
 Rec == ndJsonDeserialize(IOEnv.OBS)
 VARIABLE l
 
-(* the directory a node stands for when it is entered: itself, or what a link (chain) resolves to; -1 = none *)
-RECURSIVE Resolve(_, _, _)
-Resolve(w, n, fuel) ==
-  IF n = 0 THEN 0
-  ELSE IF n < 0 \/ fuel = 0 THEN -1
-  ELSE IF w.nodes[n].kind = "dir" THEN n
-  ELSE IF w.nodes[n].kind = "symlink" THEN Resolve(w, w.nodes[n].target, fuel - 1)
-  ELSE -1
-RECURSIVE Closure(_, _)
-Closure(w, S) == LET T == S \cup ({ Resolve(w, c, 8) : c \in UNION { ChildrenOf(w, d) : d \in S } } \ {-1})
-                 IN IF T = S THEN S ELSE Closure(w, T)
-Reachable(w, root) == Closure(w, {root})
-Behind(w, root) == UNION { ChildrenOf(w, d) : d \in Reachable(w, root) }
+(* Resolve, Reachable and Behind are World.tla's (shared with the Mech model WalkerL) *)
 
 Verdict(r) ==
   LET w == r.world  all == NodeIds(w)
